@@ -93,15 +93,16 @@ def analyse_decorate(ctx, repo, prop_rules):
     if "identifiers" in prop_rules:
         ctx.clause = "1-identifiers"
         cfg = make_cfg(repo, fn)
-        for f in ("application_id", "hop_by_hop", "end_to_end"):
-            want = f"{A}.header.{f} = {R}.header.{f}"
-            ok = must_pass(cfg, lambda n: n.kind == "stmt" and ast.unparse(n.ast) == want)
-            others = [ast.unparse(n.ast) for n in cfg.nodes.values() if n.kind == "stmt" and isinstance(n.ast, ast.Assign)
-                      and ast.unparse(n.ast.targets[0]) == f"{A}.header.{f}" and ast.unparse(n.ast) != want]
-            ctx.decide(ok and not others, "R-MUSTDEF/identifiers", construct, where,
-                       f"answer.header.{f} <- request.header.{f} on every path",
-                       f"answer.header.{f} is not assigned from request.header.{f} on every path"
-                       + (f" (other stores: {others})" if others else ""), key=f"id:{f}")
+        from ..astutil import field_copy_verdict
+        fields = ("application_id", "hop_by_hop", "end_to_end")
+        for f in fields:
+            others = [f"{R}.header.{g}" for g in fields if g != f] + [f"{A}.header.{g}" for g in fields]
+            v, detail = field_copy_verdict(cfg, f"{A}.header.{f}", f"{R}.header.{f}", others)
+            if v == "UNDECIDED":
+                ctx.undecided("R-MUSTDEF/identifiers", construct, where, detail, key=f"id:{f}")
+            else:
+                ctx.decide(v == "HOLDS", "R-MUSTDEF/identifiers", construct, where, detail,
+                           f"answer.header.{f} is not the request's {f}: {detail}", key=f"id:{f}")
         rets = [ast.unparse(n.value) for n in walk_no_nested(fn) if isinstance(n, ast.Return) and n.value is not None]
         ctx.decide(rets and all(r == A for r in rets), "R-MUSTDEF/identifiers", construct, where, "returns the decorated answer",
                    f"returns {rets}", key="return", nontrivial=False)
